@@ -69,12 +69,27 @@ def prepare(tier):
     family(tier)
 
 
+APPROX_PARTS = [("list", None, T.leaf("Value", "equal_to_approx", 1.0, 0.5), None),
+                ("map", None, T.leaf("Value", "equal_to_approx", value=2, tolerance=0.25), None),
+                ("mol", None, None, T.leaf("Value", "in_range", 0, 3), None)]
+
+
 def units(tier):
-    return gen.chunks(len(_paths(tier)), 6)
+    return gen.chunks(len(_paths(tier)), 6) + [["NOISE"]]
 
 
 def run_unit(unit, tier):
     res = Result()
+    if unit[0] == "NOISE":
+        # after malformed / unusual specs have been fed to the parsers, serialisation round trips must still hold
+        from mc.noise import make_noise
+        res.count("transitions", make_noise())
+        ps = [T.path((p,)) for p in APPROX_PARTS + PARTS[::3]] + [T.path((("prim", "a"), p)) for p in APPROX_PARTS]
+        docs = family("quick")
+        for pi, p in enumerate(ps):
+            for how in ("api", "spec"):
+                check_case(res, p, how, docs, key=("NOISE", pi, how), noise=True)
+        return res
     ps = _paths(tier)
     docs = family(tier)
     for pi in range(unit[0], unit[1]):
@@ -87,7 +102,10 @@ def run_unit(unit, tier):
 def replay(case):
     res = Result()
     docs = [case["doc"]] if "doc" in case else family("quick")
-    check_case(res, case["path"], case["how"], docs, key=("replay",))
+    if case.get("noise"):
+        from mc.noise import make_noise
+        make_noise()
+    check_case(res, case["path"], case["how"], docs, key=("replay",), noise=bool(case.get("noise")))
     return list(res.violations.values())
 
 
@@ -106,10 +124,12 @@ def same_pairs(a, b):
     return True
 
 
-def check_case(res, pt, how, docs, key):
+def check_case(res, pt, how, docs, key, noise=False):
     res.count("evaluations")
     res.state(*key)
     case = {"path": pt, "how": how}
+    if noise:
+        case["noise"] = True
     try:
         if how == "api":
             p = T.build_path(pt)
